@@ -2318,6 +2318,64 @@ theorem expandE_flat (f : Form) (a b : Operand) :
           · simp only [isNamed_flat, vecEntries_flat]
           · simp only [matEntries_flat]
 
+/-! ## 6. Wave 3 — re-shape histories: a use sees only the current descriptions -/
+
+/-- a use never changes what later operations see -/
+theorem stepStore_use (st : Store) (o : HOp) (h : o.isSetup = false) : stepStore st o = st := by
+  cases o <;> simp_all [HOp.isSetup, stepStore]
+
+theorem stepReply_setup (st : Store) (o : HOp) (h : o.isSetup = true) : stepReply st o = none := by
+  cases o <;> simp_all [HOp.isSetup, stepReply]
+
+theorem runHist_append (st : Store) (h1 h2 : List HOp) :
+    runHist st (h1 ++ h2) = ((runHist (runHist st h1).1 h2).1, (runHist st h1).2 ++ (runHist (runHist st h1).1 h2).2) := by
+  induction h1 generalizing st with
+  | nil => simp [runHist]
+  | cons o os ih =>
+    simp only [List.cons_append, runHist, ih]
+    cases stepReply st o <;> simp
+
+/-- the store after a history is the store after its set-up operations alone: uses leave no trace -/
+theorem runHist_store (st : Store) (h : List HOp) :
+    (runHist st h).1 = (runHist st (h.filter HOp.isSetup)).1 := by
+  induction h generalizing st with
+  | nil => rfl
+  | cons o os ih =>
+    cases ho : o.isSetup with
+    | true => simp only [List.filter_cons, ho, if_true, runHist]; exact ih _
+    | false => simp only [List.filter_cons, ho, Bool.false_eq_true, if_false, runHist, stepStore_use st o ho]; exact ih _
+
+/-- **history independence**: what an equation expands to after ANY history is `expandE` of the operand
+descriptions produced by the set-up operations of that history — earlier uses (and what they asked the
+elements) are irrelevant -/
+theorem use_after_history (st : Store) (h : List HOp) (x : RefEx) :
+    (runHist st (h ++ [.use x])).2 =
+      (runHist st h).2 ++ [.res (expandE tNow (x.resolve (runHist st (h.filter HOp.isSetup)).1))] := by
+  rw [runHist_append, ← runHist_store]
+  simp [runHist, stepReply]
+
+theorem agg_after_history (st : Store) (h : List HOp) (g : Agg) (nm : String) :
+    (runHist st (h ++ [.agg g nm])).2 =
+      (runHist st h).2 ++ [.term (aggTerm g ((runHist st (h.filter HOp.isSetup)).1.get nm))] := by
+  rw [runHist_append, ← runHist_store]
+  simp [runHist, stepReply]
+
+/-- set-ups produce no reply; a set-up that does not concern the operands … is still just a store update -/
+theorem setups_reply_nothing (st : Store) (h : List HOp) (hs : ∀ o ∈ h, o.isSetup = true) : (runHist st h).2 = [] := by
+  induction h generalizing st with
+  | nil => rfl
+  | cons o os ih =>
+    simp only [runHist, stepReply_setup st o (hs o (by simp))]
+    exact ih _ (fun o' ho' => hs o' (by simp [ho']))
+
+/-- non-vacuity (kernel): a 2x2 used, re-shaped to 2x3 (same row count), used again: the second use sees 2x3 —
+`A.dot(v2)` is now refused and `A.dot(v3)` accepted -/
+example :
+    (match (runHist [] [.setupMat "A" 2 2, .setupVec "v" 2, .setupVec "w" 3, .use (.op .dot (.ref "A") (.ref "v")),
+        .setupMat "A" 2 3, .use (.op .dot (.ref "A") (.ref "v")), .use (.op .dot (.ref "A") (.ref "w"))]).2 with
+     | [.res (some _), .res none, .res (some _)] => true
+     | _ => false) = true := by decide +kernel
+
 /-! ## C10 at full strength (for the modelled operand kinds) -/
 
 /-- The wave-2 clauses of `C10_full`.  For ALL operand TREES `x` (numbers, elements, operators over such
@@ -2442,12 +2500,19 @@ def C10_full : Prop :=
   (∀ f a b m es, vecEntries f a b false m = some es → ∀ i kp, es[i]? = some kp →
     kp.1 = .i i ∧ termAt f a b [.i i] = some kp.2) ∧
   -- wave 2
-  C10_wave2
+  C10_wave2 ∧
+  -- wave 3: history independence of uses on one model
+  (∀ (st : Store) (h : List HOp), (runHist st h).1 = (runHist st (h.filter HOp.isSetup)).1) ∧
+  (∀ (st : Store) (h : List HOp) (x : RefEx), (runHist st (h ++ [.use x])).2 =
+      (runHist st h).2 ++ [.res (expandE tNow (x.resolve (runHist st (h.filter HOp.isSetup)).1))]) ∧
+  (∀ (st : Store) (h : List HOp) (g : Agg) (nm : String), (runHist st (h ++ [.agg g nm])).2 =
+      (runHist st h).2 ++ [.term (aggTerm g ((runHist st (h.filter HOp.isSetup)).1.get nm))])
 
 theorem C10_full_holds : C10_full := by
   refine ⟨fun f a b r h p hp => ⟨expand_wl f a b r h p hp, expand_parses f a b r h p hp⟩,
     fun g e p h => ⟨aggTerm_wl g e p h, aggTerm_parses g e p h⟩, ?_, ?_, size_spec, dims_spec,
-    expand_none_of_resolve, expand_none_of_ctor, matEntries_entry, vecEntries_entry, C10_wave2_holds⟩
+    expand_none_of_resolve, expand_none_of_ctor, matEntries_entry, vecEntries_entry, C10_wave2_holds,
+    runHist_store, use_after_history, agg_after_history⟩
   · intro R _ O ρ σ
     exact ⟨elementwise_spec O ρ σ, nmul_spec O ρ σ, dot_mm O ρ σ, dot_mv O ρ σ, dot_vm O ρ σ, dot_vv O ρ σ,
       fun a b idx p hb ha h => dot_scalar_right O ρ σ a b idx hb ha p h,
@@ -2486,6 +2551,8 @@ example :
 
 #print axioms C10_full_holds
 #print axioms C10_wave2_holds
+#print axioms use_after_history
+#print axioms runHist_store
 #print axioms nested_spec
 #print axioms expandE_spec
 #print axioms expandE_flat
